@@ -227,6 +227,102 @@ def single_precision_findings(rng, tier):
     return list(found.values()), nrun
 
 
+def band_findings(rng, tier, prefix):
+    """A few fresh models whose site likelihoods lie INSIDE the subnormal band of doubles (placed by bisection on the
+    branch-length scale), against the log-domain reference: the value returned must be as accurate there as anywhere
+    else.  (Shared with the C01 check: the exact marginalisation is also owed for the trees on which the plain
+    recursion quietly loses its digits.)"""
+    n2 = 560
+    found, nrun = {}, 0
+    subst = dict(type="JC69")
+    cats = cats_of(subst)
+    for shape in (["caterpillar"] if tier == "quick" else ["caterpillar", "balanced"]):
+        tree = make_tree(shape, n2, rng)
+        like, _ = build(shape, n2, tree, subst, 0.01)
+        sm = like.subst_model
+        f = lambda x: min(ref_loglik_cat(tree, n2, x, sm, (0, 1), cats[-1][1]))
+
+        def solve(target):
+            lo, hi = 1e-4, 50.0
+            if f(hi) > target:
+                return None
+            for _ in range(50):
+                mid = math.sqrt(lo * hi)
+                if f(mid) > target:
+                    lo = mid
+                else:
+                    hi = mid
+            return hi
+        xb, xc = solve(LN_TINY), solve(LN_DENORM)
+        if xb is None:
+            continue
+        if xc is None:
+            xc = xb * 1.5
+        k = 5 if tier == "quick" else 16
+        for j in range(k):
+            x = xb + (xc - xb) * (j + 0.5) / k
+            lk, _ = build(shape, n2, tree, subst, x)
+            v = ev(lk)
+            nrun += 1
+            ref = sum(ref_loglik(tree, n2, x, sm, (0, 1), cats))
+            bad = None
+            if isinstance(v, str):
+                bad = v
+            elif not math.isfinite(v):
+                bad = f"returned {v!r} while the true value {ref!r} is finite"
+            elif abs(v - ref) > 1e-8 * abs(ref):
+                bad = (f"returned {v!r}, reference {ref!r}: relative error {abs(v - ref) / abs(ref):.2e} "
+                       f"(rescale flag after = {bool(lk.rescale)})")
+            if bad:
+                key = f"{prefix}:inaccurate:subnormal-band:fresh"
+                found.setdefault(key, (key, f"{shape} n={n2} JC69 branch scale {x!r} (site likelihoods between 5e-324 and "
+                                            f"2.2e-308): {bad}",
+                                       dict(shape=shape, n=n2, subst=subst, x=x, value=v, reference=ref)))
+    return list(found.values()), nrun
+
+
+def small_tree_findings(rng, tier):
+    """Underflow is not a matter of tree size alone: a tree of a hundred-odd taxa whose branches are very short
+    (closely related sequences, an optimiser's starting values) has site likelihoods below 2.2e-308 as soon as a column
+    needs many substitutions.  Fresh models and a model whose branches shrink after an ordinary first evaluation,
+    against the log-domain reference."""
+    torch = impl.load()
+    found, nrun = {}, 0
+    subst = dict(type="JC69")
+    cats = cats_of(subst)
+    for n2, shape in ((120, "caterpillar"), (200, "balanced")) if tier == "quick" else \
+            ((120, "caterpillar"), (200, "balanced"), (160, "random"), (250, "caterpillar")):
+        tree = make_tree(shape, n2, rng)
+        xs = [rng.choice([1e-6, 3e-6, 1e-5]), rng.choice([1e-4, 3e-4, 1e-3])]
+        like, dic = build(shape, n2, tree, subst, 0.05, mixed=True)
+        sm = like.subst_model
+
+        def judge(v, x, mode):
+            ref = sum(ref_loglik(tree, n2, x, sm, (0, 1, 2), cats))
+            bad = None
+            if isinstance(v, str):
+                bad = v
+            elif not math.isfinite(v):
+                bad = f"returned {v!r} while the true value {ref!r} is finite"
+            elif abs(v - ref) > 1e-8 * abs(ref):
+                bad = f"returned {v!r}, reference {ref!r} (relative error {abs(v - ref) / abs(ref):.2e})"
+            if bad:
+                k = f"C03:small-tree-short-branches:{mode}"
+                found.setdefault(k, (k, f"{shape} n={n2} JC69, all branches {x!r}, a conserved, a nearly conserved and a "
+                                        f"pseudo-random column: {bad}",
+                                     dict(shape=shape, n=n2, subst=subst, x=x, mode=mode, value=v, reference=ref)))
+        for x in xs:
+            lk, _ = build(shape, n2, tree, subst, x, mixed=True)
+            judge(ev(lk), x, "fresh")
+            nrun += 1
+        judge(ev(like), 0.05, "history")
+        for x in xs:
+            dic["bl"].tensor = torch.tensor(branch_vector(n2, x))
+            judge(ev(like), x, "history")
+            nrun += 1
+    return list(found.values()), nrun
+
+
 def run(tier, seed, replay=None):
     torch = impl.load()
     rep = C.Report(PID, tier, seed)
@@ -381,6 +477,9 @@ def run(tier, seed, replay=None):
     sp_fs, n_sp = single_precision_findings(rng, tier)
     for f in sp_fs:
         rep.violation(*f)
+    st_fs, n_st = small_tree_findings(rng, tier)
+    for f in st_fs:
+        rep.violation(*f)
     ok_sync, info = sync()
     if not ok_sync:
         rep.proof = dict(obligations=1, discharged=0, axioms={}, theorems=["T8 translation"], ok=False)
@@ -437,5 +536,6 @@ def run(tier, seed, replay=None):
                 "a pseudo-random column (fresh and in a history); "
                 "non-trivial = in/beyond the band or evaluated after the switch")
     rep.extra = dict(input_distribution=dist, traces_validated_against_impl=len(evals), taxa=n,
-                     single_precision_models_compared_with_double=n_sp)
+                     single_precision_models_compared_with_double=n_sp,
+                     small_trees_with_very_short_branches_evaluated=n_st)
     return rep.finish()
